@@ -1,3 +1,263 @@
+(** C08 — pruning structures never rule out a zone that holds a matching row.
+    Part B (enum bitmaps, temporal calendar + per-zone index, xor-filter keys) first, then part A (the
+    succinct range filter). Only property theorems, each closed by [exact], with [Print Assumptions]. *)
+
+(* ===================== part B ===================== *)
+(** C08, part B — enum bitmaps, the temporal calendar + per-zone index and the xor-filter
+    keys never rule out a zone that holds a matching row.
+    This file contains only the property theorems, each closed by [exact], with
+    [Print Assumptions] beneath.  Models: Model/ZoneSel.v, EnumBitmap.v, Temporal.v,
+    XorKey.v; proofs: Proofs/EnumBitmapProofs.v, TemporalProofs.v, XorKeyProofs.v.
+    [select_*] is what a query scans: the pruner's answer, or the field selector's
+    fallback when the pruner answered [None] (regenerated from the Rust text). *)
+From Coq Require Import NArith ZArith List.
+From Snel Require Import Base.Bytes Model.ZoneSel Model.EnumBitmap Model.Temporal Model.XorKey.
+From Snel Require Import Proofs.EnumBitmapProofs Proofs.TemporalProofs Proofs.XorKeyProofs.
+Import ListNotations.
+
+(** ** Enum bitmaps *)
+
+(** [=] with a declared literal: every zone (any zone count, any row values) that holds
+    the literal is a candidate, whenever the index could be built. *)
+Theorem C08b_enum_eq_sound : forall variants zones ix zid vals lit all,
+  EnumBitmap.build_all variants zones = Some ix ->
+  NoDup (map fst zones) ->
+  In (zid, vals) zones ->
+  In lit variants ->
+  (exists v, In v vals /\ EnumBitmap.row_matches OEq v lit = true) ->
+  In zid (select_enum (Some ix) all OEq lit).
+Proof. exact enum_eq_sound. Qed.
+Print Assumptions C08b_enum_eq_sound.
+
+(** [!=] with a declared literal: every zone that holds another declared variant is a candidate. *)
+Theorem C08b_enum_neq_sound : forall variants zones ix zid vals lit all,
+  EnumBitmap.build_all variants zones = Some ix ->
+  NoDup (map fst zones) ->
+  In (zid, vals) zones ->
+  In lit variants ->
+  (exists v, In v vals /\ In v variants /\ EnumBitmap.row_matches ONeq v lit = true) ->
+  In zid (select_enum (Some ix) all ONeq lit).
+Proof. exact enum_neq_sound. Qed.
+Print Assumptions C08b_enum_neq_sound.
+
+(** FALSE of the code: [!=] with a literal that is not a declared variant returns no zone
+    although every row differs from it (known class EnumNeqUndeclaredLiteral). *)
+Theorem C08b_enum_neq_undeclared_refuted :
+  exists variants zones ix zid vals lit all,
+    EnumBitmap.build_all variants zones = Some ix /\ NoDup (map fst zones) /\ In (zid, vals) zones /\
+    (forall v, In v vals -> In v variants) /\
+    (exists v, In v vals /\ EnumBitmap.row_matches ONeq v lit = true) /\
+    ~ In zid (select_enum (Some ix) all ONeq lit).
+Proof. exact enum_neq_undeclared_refuted. Qed.
+Print Assumptions C08b_enum_neq_undeclared_refuted.
+
+(** FALSE of the code: an operator other than [=] / [!=] on an enum column returns no zone
+    (known class EnumRangeOp). *)
+Theorem C08b_enum_range_op_refuted :
+  exists variants zones ix zid vals lit all,
+    EnumBitmap.build_all variants zones = Some ix /\ In (zid, vals) zones /\ In lit variants /\
+    (exists v, In v vals /\ In v variants /\ EnumBitmap.row_matches OGt v lit = true) /\
+    ~ In zid (select_enum (Some ix) all OGt lit).
+Proof. exact enum_range_op_refuted. Qed.
+Print Assumptions C08b_enum_range_op_refuted.
+
+(** [rows_per_zone] is truncated to 16 bits: with a first zone of 65536 rows every
+    bitmap is empty and the first declared value of any zone makes the builder panic
+    (known class EnumZoneLongerThanBitmap; latent, depends on the configured zone size). *)
+Theorem C08b_enum_rows_per_zone_wrap_refuted :
+  exists n, (0 < n)%N /\ rows_per_zone_of n = 0%N /\
+    forall variants v r, In v variants -> add_zone_values variants (rows_per_zone_of n) (v :: r) = None.
+Proof. exact enum_rows_per_zone_wrap_refuted. Qed.
+Print Assumptions C08b_enum_rows_per_zone_wrap_refuted.
+
+(** ... and the index CAN be built for every flush whose first zone is the longest and
+    has fewer than 2^16 rows (what the zone planner produces), so the hypotheses above are met. *)
+Theorem C08b_enum_build_ok : forall variants z0 vals0 rest,
+  (N.of_nat (length vals0) < 2 ^ Snel.Gen.Params.zidx_rpz_bits)%N ->
+  (forall zid vals, In (zid, vals) rest -> (length vals <= length vals0)%nat) ->
+  EnumBitmap.build_all variants ((z0, vals0) :: rest) <> None.
+Proof. exact enum_build_ok. Qed.
+Print Assumptions C08b_enum_build_ok.
+
+(** The strongest true statement: outside the known classes, for columns that hold only
+    declared variants (STORE validation, C06), every operator and literal is sound. *)
+Theorem C08b_enum_outside_known : forall variants zones ix zid vals op lit all,
+  enum_known variants op lit = false ->
+  EnumBitmap.build_all variants zones = Some ix ->
+  NoDup (map fst zones) ->
+  In (zid, vals) zones ->
+  (forall v, In v vals -> In v variants) ->
+  (exists v, In v vals /\ EnumBitmap.row_matches op v lit = true) ->
+  In zid (select_enum (Some ix) all op lit).
+Proof. exact enum_outside_known. Qed.
+Print Assumptions C08b_enum_outside_known.
+
+(** ** Temporal calendar + per-zone index *)
+Open Scope Z_scope.
+
+(** All of [=, >, >=, <, <=]; any number of zones, any value lists (other zones may hold
+    anything); timestamps on hour/day boundaries included: a zone without negative
+    timestamps that holds a row satisfying a non-negative probe is a candidate, provided
+    the day buckets of that row and of the probe start below 2^32. *)
+Theorem C08b_temporal_sound_nonneg : forall is_ts zones zid vals t op l v all,
+  NoDup (map fst zones) -> In (zid, vals) zones -> In t vals ->
+  (forall u, In u vals -> 0 <= u < 2 ^ 63) ->
+  lit_value l = Some (LVInt v) -> 0 <= v ->
+  day_in_u32 v -> day_in_u32 t ->
+  In op [OEq; OGt; OGte; OLt; OLte] ->
+  Temporal.row_matches op t (LVInt v) = true ->
+  In zid (select_temporal is_ts (Temporal.build zones) all op l).
+Proof. exact temporal_sound_nonneg. Qed.
+Print Assumptions C08b_temporal_sound_nonneg.
+
+(** [=] is sound for every magnitude (truncated bucket ids only collide, never reorder). *)
+Theorem C08b_temporal_eq_sound_any_magnitude : forall is_ts zones zid vals t l v all,
+  NoDup (map fst zones) -> In (zid, vals) zones -> In t vals ->
+  (forall u, In u vals -> 0 <= u < 2 ^ 63) ->
+  lit_value l = Some (LVInt v) ->
+  Temporal.row_matches OEq t (LVInt v) = true ->
+  In zid (select_temporal is_ts (Temporal.build zones) all OEq l).
+Proof. exact temporal_eq_sound_any_magnitude. Qed.
+Print Assumptions C08b_temporal_eq_sound_any_magnitude.
+
+(** FALSE of the code: a zone that also holds a negative timestamp is never a candidate
+    (known class TemporalNegativeValueInZone). *)
+Theorem C08b_temporal_negative_zone_refuted :
+  exists zones zid vals t l v,
+    NoDup (map fst zones) /\ In (zid, vals) zones /\ In t vals /\
+    lit_value l = Some (LVInt v) /\ 0 <= v /\ Temporal.row_matches OEq t (LVInt v) = true /\
+    ~ In zid (select_temporal false (Temporal.build zones) [zid] OEq l).
+Proof. exact temporal_negative_zone_refuted. Qed.
+Print Assumptions C08b_temporal_negative_zone_refuted.
+
+(** FALSE of the code: a negative probe is clamped to 0, so [> v] with [v < 0] misses
+    rows at 0 (known class TemporalNegativeProbeGt). *)
+Theorem C08b_temporal_negative_probe_refuted :
+  exists zones zid vals t l v,
+    NoDup (map fst zones) /\ In (zid, vals) zones /\ In t vals /\ (forall u, In u vals -> 0 <= u) /\
+    lit_value l = Some (LVInt v) /\ Temporal.row_matches OGt t (LVInt v) = true /\
+    ~ In zid (select_temporal false (Temporal.build zones) [zid] OGt l).
+Proof. exact temporal_negative_probe_refuted. Qed.
+Print Assumptions C08b_temporal_negative_probe_refuted.
+
+(** FALSE of the code: [!=] on a temporal field returns no zone (known class TemporalNeq). *)
+Theorem C08b_temporal_neq_refuted :
+  exists zones zid vals t l v,
+    NoDup (map fst zones) /\ In (zid, vals) zones /\ In t vals /\ (forall u, In u vals -> 0 <= u) /\
+    lit_value l = Some (LVInt v) /\ 0 <= v /\ Temporal.row_matches ONeq t (LVInt v) = true /\
+    ~ In zid (select_temporal false (Temporal.build zones) [zid] ONeq l).
+Proof. exact temporal_neq_refuted. Qed.
+Print Assumptions C08b_temporal_neq_refuted.
+
+(** FALSE of the code: bucket ids are truncated to u32 but compared by order; a probe in
+    the year 2106 or later misses present-day zones (known class TemporalBeyondU32). *)
+Theorem C08b_temporal_u32_wrap_refuted :
+  exists zones zid vals t l v,
+    NoDup (map fst zones) /\ In (zid, vals) zones /\ In t vals /\ (forall u, In u vals -> 0 <= u) /\
+    lit_value l = Some (LVInt v) /\ 0 <= v /\ Temporal.row_matches OLte t (LVInt v) = true /\
+    ~ In zid (select_temporal false (Temporal.build zones) [zid] OLte l).
+Proof. exact temporal_u32_wrap_refuted. Qed.
+Print Assumptions C08b_temporal_u32_wrap_refuted.
+
+(** FALSE of the code: a Float64 literal is probed as 0 (known class TemporalNonIntegerLiteral). *)
+Theorem C08b_temporal_float_literal_refuted :
+  exists zones zid vals t l n d,
+    NoDup (map fst zones) /\ In (zid, vals) zones /\ In t vals /\ (forall u, In u vals -> 0 <= u) /\
+    lit_value l = Some (LVRat n d) /\ Temporal.row_matches OLt t (LVRat n d) = true /\
+    ~ In zid (select_temporal false (Temporal.build zones) [zid] OLt l).
+Proof. exact temporal_float_literal_refuted. Qed.
+Print Assumptions C08b_temporal_float_literal_refuted.
+
+(** The strongest true statement: outside the five known classes every operator, every
+    literal with a numeric meaning (integer, time string, u64 string), every i64 data. *)
+Theorem C08b_temporal_outside_known : forall is_ts zones zid vals t op l lv all,
+  NoDup (map fst zones) -> In (zid, vals) zones -> In t vals ->
+  (forall u, In u vals -> - 2 ^ 63 <= u < 2 ^ 63) ->
+  lit_value l = Some lv ->
+  match lv with LVInt v => - 2 ^ 63 <= v < 2 ^ 64 | LVRat _ _ => True end ->
+  temporal_known vals op l = false ->
+  Temporal.row_matches op t lv = true ->
+  In zid (select_temporal is_ts (Temporal.build zones) all op l).
+Proof. exact temporal_outside_known. Qed.
+Print Assumptions C08b_temporal_outside_known.
+
+(** ** Xor-filter keys (zone-level .zxf and field-level .xf) *)
+Open Scope N_scope.
+
+(** Builder and probe derive the same key: for a cell and a literal with the same
+    canonical string (in particular the same value), the probe's key is among the keys
+    the zone-level builder inserts for the cell's zone and among the keys the
+    field-level builder inserts. *)
+Theorem C08b_xor_key_agree : forall zones zid cells c l s,
+  In (zid, cells) zones -> In (Some c) cells ->
+  value_to_string c = Some s -> value_to_string l = Some s ->
+  exists k, probe_key l = Some k /\ In k (zone_keys cells) /\ In k (field_keys zones).
+Proof. exact xor_key_agree. Qed.
+Print Assumptions C08b_xor_key_agree.
+
+(** Given ONLY the contract "a filter built from key list S contains every key of S",
+    the zone-level index reports every zone that holds the probed value and whose
+    filter was constructed — for every abstract filter implementation. *)
+Theorem C08b_xor_zone_sound :
+  forall (fuse : Type) (fbuild : list N -> option fuse) (fcontains : fuse -> N -> bool),
+  (forall ks f k, fbuild ks = Some f -> In k ks -> fcontains f k = true) ->
+  forall zones zid cells c l s inflight all,
+    NoDup (map fst zones) -> In (zid, cells) zones -> In (Some c) cells ->
+    value_to_string c = Some s -> value_to_string l = Some s ->
+    fbuild (zone_keys cells) <> None ->
+    In zid (select_zxf fuse fcontains (build_for_field fuse fbuild zones) inflight all OEq l).
+Proof. exact xor_zone_sound. Qed.
+Print Assumptions C08b_xor_zone_sound.
+
+(** ... and the field-level presence filter admits all zones of the segment. *)
+Theorem C08b_xor_field_sound :
+  forall (fuse : Type) (fbuild : list N -> option fuse) (fcontains : fuse -> N -> bool),
+  (forall ks f k, fbuild ks = Some f -> In k ks -> fcontains f k = true) ->
+  forall zones zid cells c l s f all,
+    In (zid, cells) zones -> In (Some c) cells ->
+    value_to_string c = Some s -> value_to_string l = Some s ->
+    build_field_filter fuse fbuild zones = Some f ->
+    select_xf fuse fcontains (Some f) all OEq l = all.
+Proof. exact xor_field_sound. Qed.
+Print Assumptions C08b_xor_field_sound.
+
+(** FALSE of the code: [!=] routed to the zone xor index returns no zone once the segment
+    is no longer in flight, for every filter implementation (known class XorNonEqOperator). *)
+Theorem C08b_xor_neq_refuted :
+  exists (zones : list (N * list (option scalar))) (zid : N) (cells : list (option scalar)) (c l : scalar),
+    NoDup (map fst zones) /\ In (zid, cells) zones /\ In (Some c) cells /\
+    value_to_string c <> value_to_string l /\ value_to_string l <> None /\
+    forall (fuse : Type) (fbuild : list N -> option fuse) (fcontains : fuse -> N -> bool) all,
+      ~ In zid (select_zxf fuse fcontains (build_for_field fuse fbuild zones) false all ONeq l).
+Proof. exact xor_neq_refuted. Qed.
+Print Assumptions C08b_xor_neq_refuted.
+
+Theorem C08b_xor_outside_known :
+  forall (fuse : Type) (fbuild : list N -> option fuse) (fcontains : fuse -> N -> bool),
+  (forall ks f k, fbuild ks = Some f -> In k ks -> fcontains f k = true) ->
+  forall zones zid cells c l s op inflight all,
+    xor_known op = false ->
+    NoDup (map fst zones) -> In (zid, cells) zones -> In (Some c) cells ->
+    value_to_string c = Some s -> value_to_string l = Some s ->
+    fbuild (zone_keys cells) <> None ->
+    In zid (select_zxf fuse fcontains (build_for_field fuse fbuild zones) inflight all op l).
+Proof. exact xor_outside_known. Qed.
+Print Assumptions C08b_xor_outside_known.
+
+(** Latent: a zone whose BinaryFuse8 construction failed is skipped by the builder and can
+    then never be a candidate (construction failure is not deterministically reachable). *)
+Theorem C08b_xor_failed_construction_loses_zone :
+  forall (fuse : Type) (fbuild : list N -> option fuse) (fcontains : fuse -> N -> bool),
+  forall zones zid cells l,
+    NoDup (map fst zones) -> In (zid, cells) zones ->
+    fbuild (zone_keys cells) = None ->
+    forall fs, build_for_field fuse fbuild zones = Some fs ->
+    ~ In zid (zones_maybe_containing fuse fcontains fs l).
+Proof. exact xor_failed_construction_loses_zone. Qed.
+Print Assumptions C08b_xor_failed_construction_loses_zone.
+
+
+(* ===================== part A ===================== *)
 (** C08 (part A: the succinct range filter) — pruning structures never rule out a zone that
     holds a matching row.  This file contains only the property theorems, each closed by
     [exact], with [Print Assumptions] beneath.
